@@ -409,8 +409,14 @@ def children(case):
 
 
 def corr(case, impl, model):
-    if ';BAD' in model or has_alloc(case):
-        return None                      # destructors that allocate are outside the model
+    if ';BAD' in model:
+        return None
+    if has_alloc(case) and 'R' in case.split('|', 1)[0]:
+        # really freed memory + allocations made during a sweep: a dead Box may `del` the stale
+        # address of an object freed earlier in the same sweep, and that address may by now belong
+        # to an object a destructor has just allocated (finalised early, still exactly once).  The
+        # model has no addresses; these cases are judged by the oracle only.
+        return None
     a = [norm_impl_step(x) for x in steps(impl)]
     nev = len([t for t in model_ops(case)[1] if t[0] != 'u'])
     b = model.split(' | ') if nev else []
@@ -538,7 +544,7 @@ def run(ctx):
     def run_spec(cs):
         sl = ctx.run_lines(drv, cs, args=['spec'])[1]
         ml = run_model(cs)
-        return [s + (' ;;BAD(model)' if (';BAD' in m and not has_alloc(c)) else '') for c, s, m in zip(cs, sl, ml)]
+        return [s + (' ;;BAD(model)' if ';BAD' in m else '') for c, s, m in zip(cs, sl, ml)]
 
     class Diff(vlib.Differential):
         """shrinking must stay outside the open findings: a candidate counts as failing only when
